@@ -32,7 +32,7 @@ REQUIRED_CLASSES = ["nontrivial", "no_ports", "no_ebb", "name_match_after_id_mat
                     "unnamed_board", "snr_board", "windows_board", "foreign_device", "near_miss", "several_boards",
                     "lookup_by_name", "lookup_by_tag", "lookup_by_device", "lookup_case_variant",
                     "lookup_earlier_also_matches", "lookup_random_key", "prefix_names", "lookup_none",
-                    "object_reused_after_other_scan"]
+                    "object_reused_after_other_scan", "twin_device_nodes"]
 QUICK_SHARDS = 4
 
 ebb_serial = sut.load("ebb_serial")
@@ -105,6 +105,8 @@ def body(ctx, case):
             # the same EBB3 object scanned another port list earlier: what it found then must not leak
             classes.add("object_reused_after_other_scan")
             reused = ebb3_serial.EBB3()
+            if case.get("connected"):
+                reused.port = object()          # the object holds an open connection while it scans again
             earlier = [tuple(p) for p in case["earlier"]]
             with patched((ebb3_serial, "comports", lambda: iter(list(earlier)))):
                 call_sut(reused.find_first)
@@ -275,6 +277,15 @@ def port_lists(draw):
         ports.append(list(port))
         tags |= ptags
         used.append(name)
+    if ports and draw(st.integers(0, 5)) == 0:
+        # the twin device node of one of the ports (tty.* <-> cu.*), same descriptors, somewhere else in the list
+        k = draw(st.integers(0, len(ports) - 1))
+        dev = ports[k][0]
+        twin = dev.replace("/dev/cu.", "/dev/tty.") if "/dev/cu." in dev else (
+            dev.replace("/dev/tty.", "/dev/cu.") if "/dev/tty." in dev else None)
+        if twin and twin != dev:
+            ports.insert(draw(st.integers(0, len(ports))), [twin, ports[k][1], ports[k][2]])
+            tags.add("twin_device_nodes")
     if len(used) >= 2 and any(a != b and a.lower().startswith(b.lower()) for a in used for b in used):
         tags.add("prefix_names")
     keys = [None]
@@ -290,6 +301,7 @@ def port_lists(draw):
     if draw(st.integers(0, 2)) == 0:
         m = draw(st.integers(0, 3))
         case["earlier"] = [list(draw(port_entry(10 + k))[0]) for k in range(m)]
+        case["connected"] = draw(st.booleans())
     return case
 
 
@@ -310,6 +322,18 @@ def pair_grid():
     ]
     keys = [None, "Axi", "axidraw", "COM1", "com", "East", "North_1", "zzz"]
     yield {"ports": [], "keys": keys, "tags": []}
+    for k in range(len(catalogue)):
+        yield {"ports": [], "keys": [None], "tags": [], "earlier": [catalogue[k][0]], "connected": True}
+        yield {"ports": [catalogue[(k + 1) % len(catalogue)][0]], "keys": [None], "tags": [],
+               "earlier": [catalogue[k][0]], "connected": True}
+    # both device nodes macOS creates for one adapter (tty.* for dial-in, cu.* for call-out), in either order
+    loc = "LOCATION=20-2"
+    twins = [["/dev/tty.usbmodem1411", "EiBotBoard,Axi", VIDPID + " SER=Axi " + loc],
+             ["/dev/cu.usbmodem1411", "EiBotBoard,Axi", VIDPID + " SER=Axi " + loc]]
+    for order in (twins, twins[::-1]):
+        yield {"ports": order, "keys": [None, "/dev/cu.usbmodem1411", "/dev/tty.usbmodem1411", "/DEV/CU.USBMODEM1411"],
+               "tags": ["named_board", "twin_device_nodes"]}
+        yield {"ports": [order[0], catalogue[7][0], order[1]], "keys": [None], "tags": ["named_board", "twin_device_nodes"]}
     for k in range(len(catalogue)):
         # a board was found by an earlier scan of the same object; now the list holds only foreign devices / nothing
         yield {"ports": [], "keys": [None], "tags": [], "earlier": [catalogue[k][0]]}
